@@ -2,7 +2,8 @@ import collections,sys
 f=sys.argv[1]; n=int(sys.argv[2]) if len(sys.argv)>2 else 60
 pats=collections.Counter(); ex={}
 for l in open(f):
-    x=l.rstrip('\n').split('|')
+    l=l.rstrip('\n').split('\t')[0]
+    x=l.split('|')
     k=(x[1][:2],x[2],x[7],x[8])
     pats[k]+=1; ex.setdefault(k,(x[3],x[4],x[5],x[6]))
 print(len(pats),'groups',sum(pats.values()),'cases')
